@@ -110,15 +110,12 @@ static map_elem *const vf_tbl_arena[VF_NARENA] = { vf_tbl_a0, vf_tbl_a1 };
 static int vf_tbl_next, vf_tbl_budget = VF_NARENA, vf_tbl_freed[VF_NARENA];
 static bool vf_tbl_silent;                 /* cut a growth the harness has no room for WITHOUT reporting it (stated bound) */
 static size_t vf_tbl_req0;                 /* element count of the first table request */
-#ifndef VF_TBL_FIRST_REQ
-#define VF_TBL_FIRST_REQ MAXTS             /* map_script.c: m_map_new asks for 256 and the harness uses TS of them */
-#endif
 static struct _map vf_map_arena;
 static int vf_map_handed, vf_map_freed;
 static char vf_dead;                       /* released tables are poisoned with this "key" */
 void *vf_calloc(size_t a, size_t b) {
     if (b == sizeof(map_elem)) {              /* a table (no other allocation of map.c has this element size) */
-        const size_t room = vf_tbl_next == 0 ? VF_TBL_FIRST_REQ : MAXTS;
+        const size_t room = MAXTS;
         if (!vf_tbl_silent) VF_CHECK(a <= room && vf_tbl_next < vf_tbl_budget, "table allocation the harness has room for (one growth per put, by doubling)");
         VF_ASSUME(a <= room && vf_tbl_next < vf_tbl_budget);
         if (vf_tbl_next == 0) vf_tbl_req0 = a;
